@@ -27,8 +27,8 @@ let all_dyn p = List.map (fun _ -> None) p
 let mk lay e s = { c14_lay = lay; c14_ext = e; c14_str = (match lay with C14_Stride -> s | _ -> []) }
 let offsets m = List.map (c14_map m) (c14_tuples m.c14_ext)
 let describe m =
-  Printf.sprintf "rss=%s exh=%s uni=1 st=%s o=%s" (string_of_int (int_of_z (c14_required_span_size m)))
-    (b01 (c14_is_exhaustive m)) (join (c14_strides_of m)) (join (offsets m))
+  Printf.sprintf "rss=%s exh=%s uni=%s st=%s o=%s" (string_of_int (int_of_z (c14_required_span_size m)))
+    (b01 (c14_is_exhaustive m)) (b01 (c14_is_unique m.c14_lay)) (join (c14_strides_of m)) (join (offsets m))
 (* the extents after constructing extents<I,p...> from the full list e *)
 let ext_of p e = c14_extents_list p (c14_extents_ctor p e)
 (* mapping with extents converted to all-dynamic extents of another index type, and back *)
@@ -84,8 +84,32 @@ let () =
           (if r0 then "-" else d (c14_to_stride ml)) (if r0 then "-" else d (c14_to_stride mr))
           (if r0 then "-" else via_dext p ms) lr rl,
         (let tu = c14_tuples e in
-         Printf.sprintf "prod=%d L=%s R=%s S=%s" (int_of_z (c14_prod e)) (join (List.map (c14_spec_left e) tu))
-           (join (List.map (c14_spec_right e) tu)) (join (List.map (fun i -> c14_dot i s) tu)))
+         let t = String.sub inst 0 1 in
+         let bits, sg = (match t with "i" -> 32, true | "u" -> 32, false | "l" -> 64, true | "s" -> 16, true | _ -> 64, false) in
+         let zbits = z_of_int bits in
+         let rank = List.length e in
+         let all f = List.for_all f tu in
+         let rec last_of = function [] -> Z0 | [x] -> x | _ :: r -> last_of r in
+         let inr lo hi x = int_of_z x >= lo && int_of_z x < hi in
+         let pr = int_of_z (c14_product e) in
+         (* the functions the theorems talk about, evaluated on every tuple of this case *)
+         let ur = all (fun i -> c14_unrank_right e (c14_map_right e i) = i) and ul = all (fun i -> c14_unrank_left e (c14_map_left e i) = i) in
+         let tr = all (fun i -> let trc = c14_map_right_trace e i in last_of trc = c14_map_right e i && List.for_all (inr 0 pr) trc
+                                && List.for_all (fun x -> c14_fits zbits sg x) trc)
+              && all (fun i -> let trc = c14_map_left_trace e i in last_of trc = c14_map_left e i && List.for_all (inr 0 pr) trc) in
+         let vb = all (fun i -> c14_validb i e) in
+         let bp = all (fun i -> List.for_all (fun r ->
+                     let j = c14_bump i (nat_of_int r) in
+                     (not (c14_validb j e)) ||
+                     (List.for_all (fun m -> Z.sub (c14_map m j) (c14_map m i) = c14_stride m (nat_of_int r)) [ml; mr; ms])) (iota rank (fun r -> r))) in
+         let wr = all (fun i -> List.for_all (fun m -> c14_wrap zbits sg (c14_map m i) = c14_map m i) [ml; mr; ms]
+                                && c14_map_right_w zbits sg e i = c14_map_right e i && c14_map_left_w zbits sg e i = c14_map_left e i
+                                && c14_map_stride_w zbits sg s i = c14_map_stride s i) in
+         let ft = c14_fits zbits sg (c14_product e) && c14_fits zbits sg (c14_required_span_size ms) in
+         let cx = c14_mapping_eqb_cross (c14_to_stride ml) ml && c14_mapping_eqb_cross (c14_to_stride mr) mr in
+         Printf.sprintf "prod=%d L=%s R=%s S=%s UR=%s UL=%s TR=%s VB=%s BP=%s WR=%s FT=%s CX=%s" (int_of_z (c14_prod e)) (join (List.map (c14_spec_left e) tu))
+           (join (List.map (c14_spec_right e) tu)) (join (List.map (fun i -> c14_dot i s) tu))
+           (b01 ur) (b01 ul) (b01 tr) (b01 vb) (b01 bp) (b01 wr) (b01 ft) (b01 cx))
     | "mds" ->
         let e = ext_of p e in
         let m = mk (lay_of (str "lay")) e s in
@@ -98,30 +122,38 @@ let () =
         let _, w = List.fold_left (fun (n, st) i ->
           (n + 1, match c14_mdspan_set st zb m i (z_of_int (5000 + n)) with Some st' -> st' | None -> st)) (0, store) tu in
         let size = int_of_z (c14_md_size m) in
-        Printf.sprintf "rank=%d size=%d empty=%s ext=%s st=%s exh=%s agree=1 p=%s v=%s same=1 w=%s"
+        let same = (match m.c14_lay with
+          | C14_Stride -> true
+          | l -> let v1 = c14_mdspan_of_extents l p e zb and v2 = c14_mdspan_of_extents l p (dyn_of p e) zb in
+                 (snd v1).c14_ext = e && (snd v2).c14_ext = e && fst v1 = zb && c14_mapping_eqb (snd v1) m && c14_mapping_eqb (snd v2) m) in
+        Printf.sprintf "rank=%d size=%d empty=%s ext=%s st=%s exh=%s agree=1 p=%s v=%s same=%s w=%s"
           (List.length e) size (b01 (size = 0)) (join e) (join (c14_strides_of m)) (b01 (c14_is_exhaustive m))
-          (join pz) (join_i v) (join w),
+          (join pz) (join_i v) (b01 same) (join w),
         ""
     | "mda" | "mdasa" ->
         let e = ext_of p e in
         let m = mk (lay_of (str "lay")) e [] in
         let k = if op = "mdasa" then "extv" else str "k" in
         let rss = int_of_z (c14_required_span_size m) in
-        let cont0 =
-          if List.mem k ["extv"; "mapv"; "extva"; "mapva"] then c14_mdarray_new m (z_of_int 77)
-          else if List.mem k ["extc"; "mapc"; "extcm"; "mapcm"; "extca"; "mapca"] then store_of rss
-          else c14_mdarray_new m Z0 in
+        let arr0 =
+          if List.mem k ["extv"; "mapv"; "extva"; "mapva"] then c14_mdarray_fill m (z_of_int 77)
+          else if List.mem k ["extc"; "mapc"; "extcm"; "mapcm"; "extca"; "mapca"] then c14_mdarray_of_container m (store_of rss)
+          else c14_mdarray_fill m Z0 in
+        let cont0 = fst arr0 in
         let tu = c14_tuples e in
         let pz = List.map (c14_map m) tu in
-        let v = List.map (fun i -> getv (c14_mdarray_get cont0 m i)) tu in
+        let v = List.map (fun i -> getv (c14_array_get arr0 i)) tu in
         let size = int_of_z (c14_md_size m) in
-        let start = if op = "mdasa" then c14_mdarray_new m Z0 else cont0 in
+        let start = if op = "mdasa" then c14_mdarray_fill m Z0 else arr0 in
+        (* writes go through the view returned by to_mdspan() *)
+        let (st0, vw) = c14_to_mdspan start in
         let _, w = List.fold_left (fun (n, st) i ->
-          (n + 1, match c14_mdarray_set st m i (z_of_int (7000 + n)) with Some st' -> st' | None -> st)) (0, start) tu in
+          (n + 1, match c14_mdspan_set st (fst vw) (snd vw) i (z_of_int (7000 + n)) with Some st' -> st' | None -> st)) (0, st0) tu in
         let head = Printf.sprintf "cs=%d size=%d empty=%s ext=%s agree=1 p=%s v=%s" (List.length cont0) size (b01 (size = 0)) (join e)
           (join pz) (join_i v) in
         if op = "mdasa" then head ^ " w=" ^ join w, "" else begin
-          let vals = List.map (fun i -> getv (c14_mdarray_get w m i)) tu in
+          let vals = (match c14_mdarray_convert m.c14_lay (w, m) with
+                      | Some x' -> List.map (fun i -> getv (c14_array_get x' i)) tu | None -> []) in
           let fs = match c14_mdarray_from_mdspan Z0 m.c14_lay w Z0 m with
             | Some (c, m') -> string_of_int (List.length c) ^ ";" ^ join_i (List.map (fun i -> getv (c14_mdarray_get c m' i)) tu)
             | None -> "UB" in
@@ -189,8 +221,9 @@ let () =
           let m1 = mk lay e1 s and m2 = mk lay e2 s2 in
           let x = (z_of_int base, m1) and y = (z_of_int b2, m2) in
           let (x', y') = if f = "swap" then c14_view_swap x y else c14_view_assign x y in
-          Printf.sprintf "%s a %s ; b %s ; q eq0=%s ne=1 asg=1 dz=1 uni=1 str=1 au=1 ae=%s as=1 rank=%d rd=%d sr=1" tag (vstate x') (vstate y')
-            (b01 (c14_mapping_eqb m1 m2)) (match lay with C14_Stride -> "0" | _ -> "1") (List.length p) (int_of_nat (c14_rank_dynamic p)) in
+          Printf.sprintf "%s a %s ; b %s ; q eq0=%s ne=1 asg=1 dz=1 uni=%s str=%s au=%s ae=%s as=%s rank=%d rd=%d sr=1" tag (vstate x') (vstate y')
+            (b01 (c14_mapping_eqb m1 m2)) (b01 (c14_is_unique lay)) (b01 (c14_is_strided lay)) (b01 (c14_is_always_unique lay))
+            (b01 (c14_is_always_exhaustive lay)) (b01 (c14_is_always_strided lay)) (List.length p) (int_of_nat (c14_rank_dynamic p)) in
         let astate (a : z list * c14_mapping) =
           let m = snd a in
           let tu = c14_tuples m.c14_ext in
@@ -204,8 +237,10 @@ let () =
           let m1 = mk lay e1 [] and m2 = mk lay e2 [] in
           let x = (filled m1 7000, m1) and y = (filled m2 8000, m2) in
           let (x', y') = if f = "swap" then c14_array_swap x y else c14_array_assign x y in
-          Printf.sprintf "%s a %s ; b %s ; q eq0=%s eqc=1 ex=1 ptr=1 uni=1 exh=1 str=1 au=1 ae=1 as=1 rank=%d rd=%d" tag (astate x')
-            (if f = "move" then "-" else astate y') (b01 (c14_mapping_eqb m1 m2 && fst x = fst y)) (List.length p) (int_of_nat (c14_rank_dynamic p)) in
+          Printf.sprintf "%s a %s ; b %s ; q eq0=%s eqc=1 ex=1 ptr=1 uni=%s exh=%s str=%s au=%s ae=%s as=%s rank=%d rd=%d" tag (astate x')
+            (if f = "move" then "-" else astate y') (b01 (c14_array_eqb (fun u w -> u = w) x y))
+            (b01 (c14_is_unique lay)) (b01 (c14_is_exhaustive m1)) (b01 (c14_is_strided lay)) (b01 (c14_is_always_unique lay))
+            (b01 (c14_is_always_exhaustive lay)) (b01 (c14_is_always_strided lay)) (List.length p) (int_of_nat (c14_rank_dynamic p)) in
         String.concat " | " [views "L" C14_Left; views "R" C14_Right; views "S" C14_Stride; arrays "AL" C14_Left; arrays "AR" C14_Right], ""
     | "xcv" ->
         (* inst = "t:p>t':p'" : source pattern p, target pattern p' *)
@@ -250,8 +285,9 @@ let () =
     | "p4eq" ->
         let e = ext_of p e in
         let m = mk (lay_of (str "lay")) e [] in
-        let same = (e = [] || c14_strides_of m = s) in
-        Printf.sprintf "eqconv=1 eq=%s ss=%s" (b01 same) (b01 same), ""
+        let ms = mk C14_Stride e s in
+        let conv = c14_to_stride m in
+        Printf.sprintf "eqconv=%s eq=%s ss=%s" (b01 (c14_mapping_eqb_cross conv m)) (b01 (c14_mapping_eqb_cross ms m)) (b01 (c14_mapping_eqb_cross ms conv)), ""
     | "span" ->
         let o = z_of_int (num "o") and len = z_of_int (num "len") in
         let sp = { c14_sp_off = o; c14_sp_len = len } in
@@ -262,7 +298,7 @@ let () =
         let desc ex = function
           | None -> "ASSERT"
           | Some s -> let l = int_of_z s.c14_sp_len in
-              Printf.sprintf "off=%d len=%d bytes=%d empty=%s it=%d ext=%s" (int_of_z s.c14_sp_off) l (8 * l) (b01 (l = 0)) l (ext_tag ex) in
+              Printf.sprintf "off=%d len=%d bytes=%d empty=%s it=%d ext=%s" (int_of_z s.c14_sp_off) l (int_of_z (c14_span_size_bytes s (z_of_int 8))) (b01 (l = 0)) (List.length (c14_span_elems s)) (ext_tag ex) in
         let pos = function None -> "EXC out_of_range" | Some q -> Printf.sprintf "pos=%d v=%d" (int_of_z q) (1000 + int_of_z q) in
         let ex = static_of x in
         (match f with
@@ -274,14 +310,15 @@ let () =
          | "sfirst" -> desc (Some (int_of_z a)) (c14_span_first sp a)
          | "slast" -> desc (Some (int_of_z a)) (c14_span_last sp a)
          | "ssub" ->
-             let rex = if c >= 0 then Some c else (match ex with Some n -> Some (n - int_of_z a) | None -> None) in
+             let rex = (match c14_subspan_extent (match ex with Some n -> Some (z_of_int n) | None -> None) a
+                                (if c < 0 then None else Some (z_of_int c)) with Some n -> Some (int_of_z n) | None -> None) in
              desc rex (c14_span_subspan sp a (if c < 0 then None else Some (z_of_int c)))
          | "at" -> pos (c14_span_at sp a)
          | "idx" -> pos (Some (c14_span_index sp a))
          | "front" -> (match c14_span_front sp with None -> "ASSERT" | q -> pos q)
          | "back" -> (match c14_span_back sp with None -> "ASSERT" | q -> pos q)
          | "iter" ->
-             let l = iota (int_of_z len) (fun k -> 1000 + int_of_z (c14_span_index sp (z_of_int k))) in
+             let l = List.map (fun q -> 1000 + int_of_z q) (c14_span_elems sp) in
              "fw=" ^ join_i l ^ " rv=" ^ join_i (List.rev l)
          | "conv" -> desc None (Some sp)
          | "asg" -> desc ex (Some sp) ^ " ok=1"
